@@ -1,11 +1,19 @@
 From V Require Import Base.Text C20.Model C20.Lemmas C20.Run.
 Open Scope N_scope.
 (* the hypotheses of crash_safe are met by the concrete path scheme used in Run.v *)
-Example hyps_ok : tmp_of 1 <> 1 /\ bk_of 1 <> 1 /\ tmp_of 1 <> bk_of 1 /\ eqb_text [97] [98] = false /\ init [97] 1 = Some [97].
+Example hyps_ok : tmp_of 1 <> 1 /\ bk_of 1 <> 1 /\ tmp_of 1 <> bk_of 1 /\ eqb_text [97] [98] = false /\ init [97] 1 = Some (File [97]).
 Proof. repeat split; vm_compute; congruence. Qed.
-Example mid_write : run_stopped [97; 98] [99; 100; 101] 0 2 true = Some (Some [97; 98], Some [99; 100], None).
+Example mid_write : run_stopped [97; 98] [99; 100; 101] 1 2 true = Some (Some [97; 98], Some [99; 100], None).
 Proof. vm_compute. reflexivity. Qed.
-Example after_first_rename : run_stopped [97; 98] [99; 100; 101] 2 0 false = Some (None, Some [99; 100; 101], Some [97; 98]).
+Example after_first_rename : run_stopped [97; 98] [99; 100; 101] 3 0 false = Some (None, Some [99; 100; 101], Some [97; 98]).
 Proof. vm_compute. reflexivity. Qed.
-Example done : run_stopped [97; 98] [99; 100; 101] 3 0 false = Some (Some [99; 100; 101], None, Some [97; 98]).
+Example done : run_stopped [97; 98] [99; 100; 101] 4 0 false = Some (Some [99; 100; 101], None, Some [97; 98]).
+Proof. vm_compute. reflexivity. Qed.
+(* the hypotheses of crash_safe are met by states whose FILE.tmp is a symbolic link to FILE itself, and the protocol then
+   still ends with the formatted text in FILE, the original in FILE.bk and the other file untouched *)
+Example link_self_ok : run_pre [97; 98] [99] 2 0 = (true, (Some [99], None, Some [97; 98]), Some [112]).
+Proof. vm_compute. reflexivity. Qed.
+Example link_other_ok : run_pre [97; 98] [99] 3 3 = (true, (Some [99], None, Some [97; 98]), Some [112]).
+Proof. vm_compute. reflexivity. Qed.
+Example tmp_dir_fails : run_pre [97; 98] [99] 4 1 = (false, (Some [97; 98], None, Some [120]), Some [112]).
 Proof. vm_compute. reflexivity. Qed.
